@@ -99,7 +99,7 @@ func packRR(rr rrSpec) []byte {
 	return append(b, rr.rdata...)
 }
 
-var qtypes = []int{1, 1, 1, 28, 28, 12, 12, 5, 15, 16, 2, 6, 33, 41, 255, 65, 64, 99, 0}
+var qtypes = []int{1, 1, 1, 28, 28, 12, 12, 5, 15, 16, 2, 6, 33, 41, 255, 65, 64, 99, 0, 256, 257, 32768, 65535}
 var qclasses = []int{1, 1, 1, 1, 3, 255, 0, 2}
 
 type optSpec struct {
